@@ -125,6 +125,19 @@ Proof.
   destruct (trailer_elided h); [discriminate|reflexivity].
 Qed.
 
+(** Request trailers (both frontends) never carry a proxy-owned attribution field
+    or the correlation header; every other trailer field is kept, in order. *)
+Theorem trailers_cannot_spoof : forall c ts,
+  (forall h, In h (edit_trailers c ts) -> trailer_owned c h = false) /\
+  filter (fun h => negb (trailer_owned c h)) (edit_trailers c ts) = filter (fun h => negb (trailer_owned c h)) ts.
+Proof.
+  intros c ts. split.
+  - intros h H. unfold edit_trailers in H. apply filter_In in H. destruct H as [_ H].
+    destruct (trailer_owned c h); [discriminate|reflexivity].
+  - unfold edit_trailers. induction ts as [|h t IH]; [reflexivity|]. cbn [filter].
+    destruct (negb (trailer_owned c h)) eqn:E; cbn [filter]; rewrite ?E, IH; reflexivity.
+Qed.
+
 (** the block-level function run by the correspondence check is [edit_request] on
     the header blocks, and the H1 serialiser writes those blocks in order *)
 Theorem edit_items_is_edit_request : forall c l,
